@@ -85,6 +85,14 @@ fn build_contract(case: u8) {
         if case < 4 {
             kani::assume(st.side_to_move as u8 == case >> 1);
             kani::assume(st.en_passant.is_some() == (case & 1 == 1));
+        } else if case >= 8 {
+            // finer split (quick tier): additionally by "some castling right is present"
+            let c = case - 8;
+            kani::assume(st.side_to_move as u8 == (c >> 1) & 1);
+            kani::assume(st.en_passant.is_some() == (c & 1 == 1));
+            let any_right = st.castle_rights[0].short.is_some() || st.castle_rights[0].long.is_some()
+                || st.castle_rights[1].short.is_some() || st.castle_rights[1].long.is_some();
+            kani::assume(any_right == (c >> 2 == 1));
         }
         let p = pos_of_builder(&st);
         cut_on();
@@ -114,6 +122,14 @@ hash_proof! { #[kani::unwind(66)] fn c09_build_w_noep() { build_contract(0); } }
 hash_proof! { #[kani::unwind(66)] fn c09_build_w_ep() { build_contract(1); } }
 hash_proof! { #[kani::unwind(66)] fn c09_build_b_noep() { build_contract(2); } }
 hash_proof! { #[kani::unwind(66)] fn c09_build_b_ep() { build_contract(3); } }
+hash_proof! { #[kani::unwind(66)] fn c09_build_s0() { build_contract(8); } }
+hash_proof! { #[kani::unwind(66)] fn c09_build_s1() { build_contract(9); } }
+hash_proof! { #[kani::unwind(66)] fn c09_build_s2() { build_contract(10); } }
+hash_proof! { #[kani::unwind(66)] fn c09_build_s3() { build_contract(11); } }
+hash_proof! { #[kani::unwind(66)] fn c09_build_s4() { build_contract(12); } }
+hash_proof! { #[kani::unwind(66)] fn c09_build_s5() { build_contract(13); } }
+hash_proof! { #[kani::unwind(66)] fn c09_build_s6() { build_contract(14); } }
+hash_proof! { #[kani::unwind(66)] fn c09_build_s7() { build_contract(15); } }
 
 // from_board: `for square in pieces { *this.square_mut(square) = Some((piece, color)); }` nested in the
 // colour / piece loops.  The invariant is stated for one universally quantified square T.
